@@ -137,11 +137,32 @@ func lit(r *vh.Rng, t string) (string, string) {
 	panic(t)
 }
 
+// Verif.C14.Model.kind: int, string are KInt1, KBox; other types carry an identity (slot reuse needs identical types)
 func kindOfBasic(t string) string {
-	if t == "string" {
+	switch t {
+	case "string":
 		return "KBox"
+	case "float64":
+		return "(KInt1T 1)"
+	case "bool":
+		return "(KInt1T 2)"
 	}
 	return "KInt1"
+}
+
+// identity of the function type func() <result> (KBoxT tag; struct types use 100 + field code)
+func funcTag(result string) int {
+	switch result {
+	case "int":
+		return 1
+	case "string":
+		return 2
+	case "float64":
+		return 3
+	case "bool":
+		return 4
+	}
+	return 5
 }
 
 var basics = []string{"int", "string", "float64", "bool"}
@@ -165,7 +186,7 @@ func (g *gen) valueDecl(name string, kind string) *decl {
 			tv := g.types[tn]
 			l, w := lit(g.r, tv.ftype)
 			e := &entity{id: id, gm: name, kind: "var", typ: tn, tver: tv, want: [2]string{"main." + tn, "{" + w + "}"}}
-			return &decl{src: fmt.Sprintf("var %s = %s{F%d: %s}", name, tn, tv.u, l), c14: fmt.Sprintf("SVar %d KBox (EZ 0)", id),
+			return &decl{src: fmt.Sprintf("var %s = %s{F%d: %s}", name, tn, tv.u, l), c14: fmt.Sprintf("SVar %d (KBoxT %d) (EZ 0)", id, 100+tv.u),
 				c15: fmt.Sprintf("DVar %d %d", id, g.ents[tn].id), apply: func() { g.set(e) }, declID: id}
 		}
 		t := pick(g.r, basics)
@@ -187,7 +208,7 @@ func (g *gen) valueDecl(name string, kind string) *decl {
 		t := pick(g.r, []string{"int", "string", "float64"})
 		l, w := lit(g.r, t)
 		e := &entity{id: id, gm: name, kind: "func", typ: t, want: [2]string{t, w}}
-		return &decl{src: fmt.Sprintf("func %s() %s { return %s }", name, t, l), c14: fmt.Sprintf("SFunc %d true", id), apply: func() { g.set(e) }, declID: id}
+		return &decl{src: fmt.Sprintf("func %s() %s { return %s }", name, t, l), c14: fmt.Sprintf("SFunc %d %d true", id, funcTag(t)), apply: func() { g.set(e) }, declID: id}
 	case "type":
 		if name == "" {
 			name = fmt.Sprintf("T_%d", id)
@@ -297,19 +318,19 @@ func (g *gen) badDecl() (string, string) {
 	case 1:
 		return fmt.Sprintf("var z_%d int = \"s\"", id), "SBad"
 	case 2:
-		return fmt.Sprintf("func g_%d() int { return undefined_%d }", id, id), fmt.Sprintf("SFunc %d false", id)
+		return fmt.Sprintf("func g_%d() int { return undefined_%d }", id, id), fmt.Sprintf("SFunc %d 1 false", id)
 	case 3:
 		return fmt.Sprintf("var z_%d Undefined_%d", id, id), "SBad"
 	case 4:
 		if fs := g.live("func"); len(fs) > 0 {
 			// redefinition of an existing function whose body does not compile (DeclFunc's deferred restore)
 			f := pick(g.r, fs)
-			return fmt.Sprintf("func %s() bool { return undefined_%d }", f.gm, id), fmt.Sprintf("SFunc %d false", f.id)
+			return fmt.Sprintf("func %s() bool { return undefined_%d }", f.gm, id), fmt.Sprintf("SFunc %d 4 false", f.id)
 		}
 		return fmt.Sprintf("var z_%d = 1 + \"a\"", id), "SBad"
 	case 5:
 		// assignment to a constant
-		return fmt.Sprintf("func g_%d() { const c = 1; c = 3 }", id), fmt.Sprintf("SFunc %d false", id)
+		return fmt.Sprintf("func g_%d() { const c = 1; c = 3 }", id), fmt.Sprintf("SFunc %d 5 false", id)
 	default:
 		return fmt.Sprintf("type U_%d struct { x Undefined_%d }", id, id), "SBad"
 	}
@@ -640,7 +661,7 @@ func main() {
 		{
 			// Interp.DeclFunc("hook", ...) is the first evaluation of every history (a FuncBind slot)
 			c := ir.Comp
-			c14h = append(c14h, "[SFunc 1000000 true]")
+			c14h = append(c14h, "[SFunc 1000000 1 true]")
 			c14o = append(c14o, fmt.Sprintf("mkObs 0 %d %d %d %d %d %d %d %s false (@nil (name * (Z * Z))) None", c.BindNum, c.IntBindNum, c.IntBindMax,
 				cap(env.Vals), len(env.Vals), cap(env.Ints), len(env.Ints), vh.CoqBool(env.IntAddressTaken)))
 			c15h = append(c15h, "(@nil decl)")
